@@ -435,6 +435,53 @@ fn check_opt(input: &[(u64, u64)], m: u64, out: &[(u64, u64)]) -> Result<(), (St
     Ok(())
 }
 
+/// An arbitrary tabix / CSI-aux header: any format, column indices in any order, any comment
+/// prefix and skip count, names with any bytes except NUL.
+fn gen_header(rng: &mut Rng, nref: usize) -> Header {
+    use noodles_csi::binning_index::index::header::{Builder as HB, Format, format::CoordinateSystem};
+    let names: Vec<Vec<u8>> = (0..nref)
+        .map(|i| {
+            let k = rng.range(0, 6) as usize;
+            let mut n: Vec<u8> = rng.bytes(k).into_iter().filter(|&b| b != 0).collect();
+            n.extend_from_slice(format!("r{i}").as_bytes());
+            n
+        })
+        .collect();
+    let fmt = match rng.below(4) {
+        0 => Format::Sam,
+        1 => Format::Vcf,
+        2 => Format::Generic(CoordinateSystem::Gff),
+        _ => Format::Generic(CoordinateSystem::Bed),
+    };
+    let generic = matches!(fmt, Format::Generic(_));
+    let seq_col = rng.below(12) as usize;
+    let start_col = rng.below(12) as usize;
+    // SAM and VCF have no end column; for generic formats the end column may come before or
+    // after the start column (tabix -s 1 -b 5 -e 3). An end column equal to the start column is
+    // the format's own encoding of "none", so it is not generated as Some.
+    let end_col = if generic && rng.chance(3, 4) {
+        let mut e = rng.below(12) as usize;
+        if e == start_col {
+            e = (e + 1 + rng.below(5) as usize) % 12;
+            if e == start_col {
+                e = (e + 1) % 13;
+            }
+        }
+        Some(e)
+    } else {
+        None
+    };
+    HB::default()
+        .set_format(fmt)
+        .set_reference_sequence_name_index(seq_col)
+        .set_start_position_index(start_col)
+        .set_end_position_index(end_col)
+        .set_line_comment_prefix(*rng.pick(&[b'#', b'@', b'>', 0x01, 0xff, b' ']))
+        .set_line_skip_count(*rng.pick(&[0u32, 1, 2, 100, i32::MAX as u32]))
+        .set_reference_sequence_names(names.into_iter().map(|n| n.into()).collect())
+        .build()
+}
+
 fn run_idxrt(kind: &str, seed: u64) -> Obs {
     let mut rng = Rng::new(seed);
     let nref = rng.range(0, 3) as usize;
@@ -514,10 +561,10 @@ fn run_idxrt(kind: &str, seed: u64) -> Obs {
             Obs::ok("-", nref > 0)
         }
         "csi" => {
-            let hdr = if rng.chance(1, 2) {
-                Some(csi::binning_index::index::header::Builder::vcf().build())
-            } else {
-                None
+            let hdr = match rng.below(3) {
+                0 => Some(csi::binning_index::index::header::Builder::vcf().build()),
+                1 => Some(gen_header(&mut rng, nref)),
+                _ => None,
             };
             let index: csi::Index = build::<BinnedIndex>(&mut rng, ms, d, nref, maxp, hdr);
             let mut w = csi::io::Writer::new(Vec::new());
@@ -599,19 +646,8 @@ fn run_idxrt(kind: &str, seed: u64) -> Obs {
             Obs::ok("-", nref > 0)
         }
         _ => {
-            // tabix: names with arbitrary bytes except NUL
-            let names: Vec<Vec<u8>> = (0..nref)
-                .map(|i| {
-                    let k = rng.range(1, 8) as usize;
-                    let mut n: Vec<u8> = rng.bytes(k).into_iter().filter(|&b| b != 0).collect();
-                    n.extend_from_slice(format!("r{i}").as_bytes());
-                    n
-                })
-                .collect();
-            let hdr = csi::binning_index::index::header::Builder::gff()
-                .set_reference_sequence_names(names.into_iter().map(|n| n.into()).collect())
-                .set_line_skip_count(rng.below(3) as u32)
-                .build();
+            // tabix: arbitrary header (format, columns in any order, names with any bytes except NUL)
+            let hdr = gen_header(&mut rng, nref);
             let index: tabix::Index = build::<LinearIndex>(&mut rng, ms, d, nref, maxp, Some(hdr));
             let mut w = tabix::io::Writer::new(Vec::new());
             if let Err(e) = w.write_index(&index) {
